@@ -265,6 +265,44 @@ func isRadixPrefix(c byte) bool {
 	return c == 'x' || c == 'X' || c == 'b' || c == 'B' || c == 'o' || c == 'O'
 }
 
+// specTrivia: the entries C15 attaches to the token that follows the white space and comments starting at offset i (executable
+// oracle, used by bounded-only clauses): one "" for every line feed passed outside a comment, one entry per `//` comment with its text
+// (without trailing blanks and the CR of a CRLF line end); the line feed that ends a comment is not an entry of its own.
+func specTrivia(s string, i int) []string {
+	var out []string
+	for i < len(s) {
+		c := s[i]
+		if c == '\n' {
+			out = append(out, "")
+			i++
+			continue
+		}
+		if c == ' ' || c == '\t' || c == '\r' {
+			i++
+			continue
+		}
+		if c == '/' && i+1 < len(s) && s[i+1] == '/' {
+			j := i + 2
+			for j < len(s) && s[j] != '\n' {
+				j++
+			}
+			out = append(out, strings.TrimRight(s[i+2:j], " \r"))
+			if j < len(s) {
+				j++
+			}
+			i = j
+			continue
+		}
+		break
+	}
+	return out
+}
+
+func concatStrs(a []string, b []string) []string {
+	out := append([]string{}, a...)
+	return append(out, b...)
+}
+
 func sameStrs(a []string, b []string) bool {
 	return len(a) == len(b) && forall(0, len(a), func(i int) bool { return a[i] == b[i] })
 }
@@ -833,6 +871,7 @@ func sameValue(src string, d byte, out string) bool {
 //@   ensures [carried.used@C15] len(l.carriedComments) == 0
 //@   ensures [nl] l.hadNewlineBefore == hasNL(l.input, old(l.position), l.position)
 //@   ensures [nl.cr@C02,C10] implies(hasCR(l.input, old(l.position), l.position), l.hadNewlineBefore)
+//@   ensures-bounded [trivia.value@C15] sameStrs(l.leadingComments, concatStrs(old(l.carriedComments), specTrivia(l.input, old(l.position))))
 
 //@ func baseNextToken(l)
 //@   props C10 C11 C08 C02 C13
@@ -881,6 +920,7 @@ func sameValue(src string, d byte, out string) bool {
 //@   ensures [semicolon.bare@C15] implies(result.Type == token.SEMICOLON, len(result.LeadingComments) == 0)
 //@   ensures [semicolon.carried@C15] implies(callResult[token.Token]("baseNextToken", 0).Type == token.SEMICOLON && len(callResult[token.Token]("baseNextToken", 0).LeadingComments) > 0, sameStrs(l.carriedComments, callResult[token.Token]("baseNextToken", 0).LeadingComments))
 //@   ensures [others.keep@C15] implies(callResult[token.Token]("baseNextToken", 0).Type != token.SEMICOLON, sameStrs(result.LeadingComments, callResult[token.Token]("baseNextToken", 0).LeadingComments) && len(l.carriedComments) == 0)
+//@   ensures-bounded [trivia.value@C15,C06] implies(result.Type == token.SEMICOLON, len(result.LeadingComments) == 0 && sameStrs(l.carriedComments, concatStrs(old(l.carriedComments), specTrivia(l.input, old(l.position))))) && implies(result.Type != token.SEMICOLON, len(l.carriedComments) == 0 && sameStrs(result.LeadingComments, concatStrs(old(l.carriedComments), specTrivia(l.input, old(l.position)))))
 //@   ensures-def [origin] LexTok(result)
 
 //@ func (l *Lexer) useTokenInterceptor(interceptor)
